@@ -3,6 +3,8 @@ import BigDec.Spec.Float
 import BigDec.Proofs.Value
 import BigDec.Model.ToF64
 import BigDec.Proofs.F64Round
+import BigDec.Proofs.F64Powi
+import BigDec.Proofs.F64Parse
 /-! # C14 — binary floats convert to decimals exactly -/
 namespace BigDec
 open Generated
@@ -155,7 +157,7 @@ theorem C14_rne_nearest (a b : Nat) (ha : 0 < a) (hb : 0 < b) :
 
 /-- zero converts to `+0.0` whatever its scale -/
 theorem C14_toF64_zero (neg : Bool) (scale : Int) : F64.toF64 neg 0 scale = 0 := by
-  unfold F64.toF64; simp
+  unfold F64.toF64 F64.toF64With; simp
 
 /-- integers (scale 0) take the `BigUint::to_f64` path: the sign bit plus the correctly rounded
     magnitude - relative error at most 2^-53, or infinity -/
@@ -163,7 +165,7 @@ theorem C14_toF64_integer (neg : Bool) (n : Nat) (hn : 0 < n) :
     F64.toF64 neg n 0 = (if neg then 2 ^ 63 else 0) + F64.rne n 1 ∧
     (F64.rne n 1 = F64.inf ∨ |F64.valQ (F64.rne n 1) - (n : ℚ)| ≤ (n : ℚ) * (2 : ℚ) ^ (-53 : Int)) := by
   constructor
-  · unfold F64.toF64 F64.ofNat
+  · unfold F64.toF64 F64.toF64With F64.ofNat
     have : (n == 0) = false := by simp; omega
     simp [this]
   · rcases F64.rne_spec n 1 hn (by norm_num) with h | ⟨h1, _⟩
@@ -175,6 +177,57 @@ theorem C14_toF64_integer (neg : Bool) (n : Nat) (hn : 0 < n) :
         simp only [Nat.cast_one, div_one]; linarith
       have := h1 hq
       simpa using this
+
+/-- **`powi(10, k)` is accurate**: for every `k ≤ 308` compiler-rt's repeated squaring gives a finite
+    positive double within `7 · 2^-53` (relative) of `10^k` (309 table rows checked by the kernel) -/
+theorem C14_powi_ten_accurate (k : Nat) (hk : k ≤ 308) :
+    F64.powi F64.ten k ≠ F64.inf ∧
+    |F64.valQ (F64.powi F64.ten k) - (10 : ℚ) ^ k| ≤ (10 : ℚ) ^ k * (7 * (2 : ℚ) ^ (-53 : Int)) :=
+  ⟨(F64.powi_err k hk).1, (F64.powi_err k hk).2.2⟩
+
+/-- **the negative-scale path meets the 2^-48 tolerance** - for every digit estimate `dc` (the code's
+    is the `f64` product `F64.digitCountF64`): when the scale is negative, the exponent left after
+    trimming is at most 308, and the trimming leaves at least 25 digits, `to_f64` returns the sign bit
+    plus infinity or a double within `2^-48` (relative) of the exact value: three roundings
+    (`BigUint::to_f64`, the `powi` table, one multiplication) and the truncation of the trimmed digits
+    compose to at most `32 · 2^-53`. -/
+theorem C14_toF64_negative_scale_tolerance (dc : Nat → Nat) (neg : Bool) (n : Nat) (scale : Int)
+    (hn : 0 < n) (hs : scale < 0) (hlo : -(2 ^ 63 : Int) ≤ scale)
+    (hk : 19 * (F64.trimRounds dc n : Int) - scale ≤ 308) (hkeep : F64.trimKeeps25 dc n = true) :
+    ∃ R, F64.toF64With dc neg n scale = (if neg then 2 ^ 63 else 0) + R ∧
+      (R = F64.inf ∨ |F64.valQ R - (n : ℚ) * (10 : ℚ) ^ (-scale)| ≤ (n : ℚ) * (10 : ℚ) ^ (-scale) * (2 : ℚ) ^ (-48 : Int)) := by
+  apply F64.toF64_powi_tolerance dc neg n scale hn hs hlo hk
+  unfold F64.trimKeeps25 at hkeep
+  simpa using hkeep
+
+/-- **the positive-scale path meets the tolerance** - for every digit estimate `dc`: when the exponent
+    left after trimming is positive (at most 2^31) and the trimming leaves at least 25 digits, `to_f64`
+    returns the sign bit plus infinity or a double within `2^-48` (relative) of the exact value when
+    that is at least `2^-1022` (the smallest normal double), and within one subnormal step `2^-1074`
+    of it below; this covers the parser rounding, the truncated digits and the underflow-to-zero
+    shortcut. -/
+theorem C14_toF64_positive_scale_tolerance (dc : Nat → Nat) (neg : Bool) (n : Nat) (scale : Int) (hn : 0 < n)
+    (hsc : 0 < scale - 19 * (F64.trimRounds dc n : Int)) (hhi : scale - 19 * (F64.trimRounds dc n : Int) ≤ 2 ^ 31)
+    (hkeep : F64.trimKeeps25 dc n = true) :
+    ∃ R, F64.toF64With dc neg n scale = (if neg then 2 ^ 63 else 0) + R ∧
+      (R = F64.inf ∨
+        (((2 : ℚ) ^ (-1022 : Int) ≤ (n : ℚ) * (10 : ℚ) ^ (-scale) →
+            |F64.valQ R - (n : ℚ) * (10 : ℚ) ^ (-scale)| ≤ (n : ℚ) * (10 : ℚ) ^ (-scale) * (2 : ℚ) ^ (-48 : Int)) ∧
+         ((n : ℚ) * (10 : ℚ) ^ (-scale) < (2 : ℚ) ^ (-1022 : Int) →
+            |F64.valQ R - (n : ℚ) * (10 : ℚ) ^ (-scale)| ≤ (2 : ℚ) ^ (-1074 : Int)))) := by
+  apply F64.toF64_parse_tolerance dc neg n scale hn hsc hhi
+  unfold F64.trimKeeps25 at hkeep
+  simpa using hkeep
+
+/-- the code's instance: `F64.toF64 = F64.toF64With F64.digitCountF64` by definition -/
+theorem C14_toF64_is_instance (neg : Bool) (n : Nat) (scale : Int) :
+    F64.toF64 neg n scale = F64.toF64With F64.digitCountF64 neg n scale := rfl
+
+/-- the premises are satisfiable (with the integer digit estimate, which the kernel can evaluate):
+    `12345e3` is untrimmed, and a 50-digit coefficient is trimmed once and keeps 31 digits -/
+example : F64.trimRounds F64.digitCountInt 12345 = 0 ∧ F64.trimKeeps25 F64.digitCountInt 12345 = true ∧
+    F64.trimRounds F64.digitCountInt (10 ^ 49 + 7) = 1 ∧ F64.trimKeeps25 F64.digitCountInt (10 ^ 49 + 7) = true := by
+  refine ⟨by decide +kernel, by decide +kernel, by decide +kernel, by decide +kernel⟩
 
 /-- 1.5 = 0x3FF8000000000000 converts to 15e-1 -/
 example : ofF64 0x3FF8000000000000 = some ⟨15, 1⟩ := by decide
